@@ -69,7 +69,15 @@ def check_state(ck, cfg, attr):
         return
     kinds = [featalg.norm_kind(norms[i]) for i in range(norms.nfeat)]
     lo, hi = attr["loc"][1], attr["loc"][2]
-    if kinds[lo:hi] != attr["nldf_norms"]:
+    lastzero = cfg["nldf"] != [] and cfg["nldf"].get("lastzero")
+    if lastzero:
+        # with a vanishing tau / gradient coefficient the inhomogeneity factor is identically 1, so WHICH normaliser class is
+        # recommended is an implementation choice; what must hold is that every normaliser cancels the declared power
+        usps = list(st.get_feat_usps())
+        tot = [float(usps[i] + (norms[i].get_usp() if norms[i] is not None else 0.0)) for i in range(norms.nfeat)]
+        if any(abs(t) > 1e-12 for t in tot[lo:hi]):
+            ck.violation("settings:%s:normaliser-does-not-cancel-declared-power:zero-last-theta" % fam, {"cfg": cfg, "residual_powers": tot[lo:hi]}, replay={"cfg": cfg})
+    elif kinds[lo:hi] != attr["nldf_norms"]:
         ck.violation("settings:%s:nldf-normalizer-kinds" % fam, {"cfg": cfg, "impl": kinds[lo:hi], "spec": attr["nldf_norms"]}, replay={"cfg": cfg})
     lo, hi = attr["loc"][3], attr["loc"][4]
     if kinds[lo:hi] != attr["sdmx_norms"]:
